@@ -334,6 +334,14 @@ func gen(g *lp.Gen) {
 			genBody(g)
 			continue
 		}
+		if g.Chance(1, 8) {
+			genConn(g)
+			continue
+		}
+		if g.Chance(1, 7) {
+			genWS(g)
+			continue
+		}
 		genResp(g, tr, lg)
 	}
 }
